@@ -155,6 +155,11 @@ def w6(a: float, b: float, c: float, d: float, e: float, f: float) -> float:
     return 0.3 + 0.17 * a + 0.34 * b + 0.51 * c + 0.68 * d + 0.85 * e + 1.02 * f + 0.05 * a * f
 
 
+def wn(*args: float) -> float:
+    """any arity (used where a component names many things)"""
+    return 0.3 + 0.05 * float(sum(args))
+
+
 W = [w0, w1, w2, w3, w4, w5, w6]
 
 
